@@ -321,7 +321,9 @@ func (g *Gen) stringCmd(now int64) []string {
 		return a
 	default:
 		// counter-friendly value
-		return []string{g.name("SET"), k, g.pick("0", "10", "-5", "9223372036854775806", "-9223372036854775807", "9223372036854775807", "-9223372036854775808", "12x", "3.0", "")}
+		return []string{g.name("SET"), k, g.pick("0", "10", "-5", "9223372036854775806", "-9223372036854775807", "9223372036854775807", "-9223372036854775808", "12x", "3.0", "",
+			// decimal strings that are not canonical integers
+			"-0", "-007", "-00", "+7", "007", " 7", "7 ")}
 	}
 }
 
@@ -433,6 +435,14 @@ func (g *Gen) listCmd() []string {
 
 func (g *Gen) hashCmd() []string {
 	k := g.key()
+	if g.chance(25) {
+		// one call over the whole (small) hash, with the filters HSCAN knows
+		a := []string{g.name("HSCAN"), k, "0", g.kw("COUNT"), "1000"}
+		if g.chance(2) {
+			a = append(a, g.kw("MATCH"), g.pick("*", "f*", "f[0-2]", "f[!0]", "", "[!f]*", "f?", "f\\%*", "*%*", "f[^1]"))
+		}
+		return a
+	}
 	switch g.r.IntN(24) {
 	case 0, 1, 2, 3:
 		a := []string{g.name(g.pick("HSET", "HSET", "HMSET")), k}
@@ -513,6 +523,13 @@ func (g *Gen) hval() string {
 
 func (g *Gen) setCmd() []string {
 	k := g.key()
+	if g.chance(25) {
+		a := []string{g.name("SSCAN"), k, "0", g.kw("COUNT"), "1000"}
+		if g.chance(2) {
+			a = append(a, g.kw("MATCH"), g.pick("*", "m*", "m[0-3]", "m[!0]", "", "[!m]*", "m?", "*%*", "m[^1]"))
+		}
+		return a
+	}
 	members := func() []string {
 		var e []string
 		for i := 0; i <= g.r.IntN(3); i++ {
@@ -574,7 +591,7 @@ func (g *Gen) setCmd() []string {
 }
 
 func (g *Gen) pattern() string {
-	return g.pick("*", "k*", "k?", "k[0-2]", "k[^0]", "*1", "k\\*", "?", "[a-k]*", "k[0-9]*", "", "key:*", "*:*", "k[a]", "k[12]")
+	return g.pick("*", "k*", "k?", "k[0-2]", "k[^0]", "*1", "k\\*", "?", "[a-k]*", "k[0-9]*", "", "key:*", "*:*", "k[a]", "k[12]", "k[!0]", "[!k]*")
 }
 
 func (g *Gen) keyCmd() []string {
